@@ -1810,18 +1810,16 @@ ws_listener_listen(void *arg)
 		return (NNG_ESTATE);
 	}
 
+	// If this fails the listener stays as it was: it keeps its server, so
+	// that it can be started again (and its options read) later on.
 	if ((rv = nni_http_server_add_handler(l->server, l->handler)) !=
 	    NNG_OK) {
-		nni_http_server_fini(l->server);
-		l->server = NULL;
 		nni_mtx_unlock(&l->mtx);
 		return (rv);
 	}
 
 	if ((rv = nni_http_server_start(l->server)) != NNG_OK) {
 		nni_http_server_del_handler(l->server, l->handler);
-		nni_http_server_fini(l->server);
-		l->server = NULL;
 		nni_mtx_unlock(&l->mtx);
 		return (rv);
 	}
